@@ -174,6 +174,9 @@ def check(db, rep):
     # ------------------------------------------------------------------ r5
     r10 = rep.rule('r10', 'ADMISSIBILITY-TOTAL: the admissibility test of an equation table answers yes or no - every optional::value() on its paths (RSEquationProcessor methods reachable from Evaluate) is dominated by has_value() on the same object, so an inadmissible table cannot make it throw', 1)
     _admissibility_total(db, r10)
+    r11 = rep.rule('r11', 'HANDOVER-RECREATED: an operation that hands its precreated result over to the caller (return std::move(member)) never dereferences that member again before it is '
+                          'created anew or tested: executing an operation twice answers, it does not crash', 2)
+    _handover_recreated(db, r11)
     r9 = rep.rule('r9', 'NO-LOOP-BY-EQUATION: an equation table is refused whenever identifying every removed constituent with its replacement closes a dependency loop - also when no single pair does (the precheck interpreted over small dependency graphs with the real graph code)', 1)
     equation_loops_evaluated(db, r9)
     r8 = rep.rule('r8', 'TRANSLATION-CLOSED: the translation returned by duplicate elimination maps every erased constituent to a constituent that still exists (interpreted on schemas with chains of duplicates)', 1)
@@ -750,3 +753,110 @@ def _admissibility_total(db, rule):
                                'typification (X1 -> D3 := debool(X2)) %s() dereferences a null pointer and IsEquatable / Equate / the synthesis constructor crash instead of refusing' % ((n.get('txt') or '')[:80], need, cs.split('::')[-1]))
     if not n_sites:
         rule.ok('no-optional-access', 'the admissibility test reads no optional by value()', '%s:%d' % (ev[0].file, ev[0].line), nontrivial=False)
+
+
+def _handover_recreated(db, rule):
+    """For every method of the operation classes that returns std::move(<unique_ptr member>): each dereference of that member inside the method
+    is reached only through an assignment of the member (in the method, or a callee of the same class that assigns it on every path) or through
+    the non-null branch of a test of the member. After the first call the member is empty, and the flag that guards the method (isCorrect /
+    isApplicable) still says yes - the sibling operation OpRelativation creates its result anew at the start of every Execute."""
+    from engine.cfgq import enumerate_paths, paths_avoiding, normalise_cond
+    OPS = 'ccl::ops::'
+
+    def member_of(f, n):
+        n = f.strip(n)
+        if n is not None and n['k'] == 'MemberExpr' and n.get('mk') == 'field':
+            kids = f.children(n)
+            if kids and f.strip(kids[0]) is not None and f.strip(kids[0])['k'] == 'CXXThisExpr':
+                return n.get('member')
+        return None
+
+    def assigns(f, m):
+        """positions of direct assignments / resets of this->m in f"""
+        out = []
+        for c in f.calls():
+            if c['k'] == 'CXXOperatorCallExpr' and c.get('op') == '=' and c.get('args') and member_of(f, f.stmts[c['args'][0]]) == m:
+                out.append(f.position_of(c))
+        return [p for p in out if p is not None]
+    memo = {}
+
+    def must_assign(g, m, depth=0):
+        key = (g.name, m)
+        if key in memo:
+            return memo[key]
+        memo[key] = False
+        if not g.has_cfg() or depth > 4:
+            return False
+        sites = assigns(g, m) + callee_sites(g, m, depth + 1)
+        exits = [(p, w) for p, w in _all_exits(g)]
+        r = bool(sites) and not paths_avoiding(g, [g.graph()[1]], sites, exits)
+        memo[key] = r
+        return r
+
+    def callee_sites(f, m, depth=0):
+        out = []
+        for c in f.calls():
+            if c['k'] != 'CXXMemberCallExpr':
+                continue
+            for t in db.callees(f, c):
+                if t.cls == f.cls and t is not f and must_assign(t, m, depth):
+                    p = f.position_of(c)
+                    if p is not None:
+                        out.append(p)
+        return out
+
+    def _all_exits(g):
+        from engine.cfgq import success_exits
+        return success_exits(g, failure_literals=())
+    n_methods = 0
+    for f in sorted(db.functions, key=lambda x: x.name):
+        if not f.name.startswith(OPS) or f.body < 0 or not f.has_cfg() or not f.cls:
+            continue
+        moved = set()
+        for r in f.walk():
+            if r['k'] == 'ReturnStmt':
+                for c in f.calls(r):
+                    if (c.get('cs') or '') == 'std::move' and c.get('args'):
+                        m = member_of(f, f.stmts[c['args'][0]])
+                        if m and 'unique_ptr' in (f.strip(f.stmts[c['args'][0]]).get('t') or ''):
+                            moved.add(m)
+        for m in sorted(moved):
+            n_methods += 1
+            inst = '%s::%s:%s' % (f.cls.split('::')[-1], f.name.split('::')[-1], m)
+            created = assigns(f, m) + callee_sites(f, m)
+            bad = None
+            for c in f.calls():
+                if c['k'] == 'CXXOperatorCallExpr' and c.get('op') in ('->', '*') and (c.get('cs') or '').startswith('std::unique_ptr::') and c.get('args') and member_of(f, f.stmts[c['args'][0]]) == m:
+                    pos = f.position_of(c)
+                    if pos is None:
+                        continue
+                    for path in enumerate_paths(f, f.graph()[1], [pos], avoid=created, limit=200):
+                        tested = False
+                        for cond, pol in path:
+                            work = [(cond, pol)]
+                            while work:
+                                c2, p2 = work.pop()
+                                c2, p2 = normalise_cond(f, c2, p2)
+                                if c2 is None:
+                                    continue
+                                if c2['k'] == 'BinaryOperator' and ((c2.get('op') == '||' and not p2) or (c2.get('op') == '&&' and p2)):
+                                    work.extend((x, p2) for x in f.children(c2))
+                                    continue
+                                kids = [f.strip(x) for x in (f.children(c2) if c2['k'] == 'BinaryOperator' else [f.stmts[a] for a in c2.get('args', [])])] if c2.get('op') in ('==', '!=') else []
+                                if len(kids) == 2 and any(x is not None and x['k'] in ('CXXNullPtrLiteralExpr', 'GNUNullExpr') for x in kids) and any(member_of(f, x) == m for x in kids if x is not None):
+                                    if ((c2['op'] == '!=') == p2):
+                                        tested = True
+                                elif member_of(f, c2) == m and p2:
+                                    tested = True
+                        if not tested:
+                            bad = bad or (c, 'a path from the entry reaches `%s` without creating `%s` anew and without testing it' % ((c.get('txt') or '')[:60], m))
+                            break
+                if bad:
+                    break
+            if bad:
+                rule.violation(inst, f.loc(bad[0]), '%s hands `%s` over with return std::move(...) and dereferences it on its way there: %s. After the first call the member is empty while the guard of the method still '
+                               'says yes, so a second call crashes (the sibling OpRelativation::Execute creates its result at the start of every call)' % (f.name.split('::')[-1], m, bad[1]))
+            else:
+                rule.ok(inst, 'every dereference of the handed-over member follows its creation or a non-null test', '%s:%d' % (f.file, f.line))
+    if not n_methods:
+        rule.broken('no operation hands a member over with return std::move(...): the rule has lost its sites')
